@@ -37,6 +37,7 @@ static std::string grid(double x) {  // integer on the 2^-40 grid (nearest); "na
     return hex_i64(r);
 }
 static std::string grid2(const Vec2& v) { return grid(v.x) + " " + grid(v.y); }
+static std::string hd2(const Vec2& v) { return hex_dbl(v.x) + " " + hex_dbl(v.y); }
 static std::string grid60(double t) {  // parameters in [0,1] on the 2^-60 grid
     if (!std::isfinite(t)) return "nan";
     return hex_i64(llround(ldexp(t, 60)));
@@ -240,8 +241,8 @@ static std::string arc_data(const std::string& label, double tol, const ArcInfo&
     int nq = (int)floor(fabs(step) / (M_PI / 2));
     std::string s = "arc " + label + " " + hex_dbl(tol) + " " + hex_dbl(A.rx) + " " + hex_dbl(A.ry) + " " + hex_dbl(A.cr) + " " + hex_dbl(A.sr) +
                     " " + hex_dbl(A.cx) + " " + hex_dbl(A.cy) + " " + hex_dbl(cos(step)) + " " + hex_dbl(sin(step)) + " " +
-                    std::to_string(nq) + " " + std::to_string(v.size());
-    for (auto& p : v) s += " " + grid2(p);
+                    (step < 0 ? "-1" : "1") + " " + std::to_string(nq) + " " + std::to_string(v.size());
+    for (auto& p : v) s += " " + hd2(p);
     return s;
 }
 // max over chords of the distance (ellipse point at the chord's mid parameter and 6 more) -> chord
@@ -620,7 +621,7 @@ static void run_curve(Out& out, const CurveDesc& d) {
                     }
                 }
                 secdata += " " + std::to_string(sv.size());
-                for (auto& p : sv) secdata += " " + grid2(p);
+                for (auto& p : sv) secdata += " " + hd2(p);
                 for (double t : ts) secdata += " " + grid60(t);
                 nsec_done++;
             }
@@ -638,15 +639,16 @@ static void run_curve(Out& out, const CurveDesc& d) {
                     setfail("FAIL " + k + ":last_ctrl last_ctrl is not the last control point of the section");
             }
             // ---- data for the driver
-            data = "poly " + hex_dbl(tol) + " " + grid2(pre) + " " + grid2(pre_ctl) + " " + k + " " + (call.rel ? "1" : "0") + " " +
+            data = "poly " + hex_dbl(tol) + " " + hd2(pre) + " " + hd2(pre_ctl) + " " + k + " " + (call.rel ? "1" : "0") + " " +
                    (call.cycle ? "1" : "0") + " " + std::to_string(call.pts.size());
-            for (auto& p : call.pts) data += " " + grid2(p);
+            for (auto& p : call.pts) data += " " + hd2(p);
             data += " " + std::to_string(hob.size() / 2);
-            for (auto& p : hob) data += " " + grid2(p);
+            for (auto& p : hob) data += " " + hd2(p);
             data += " " + std::to_string(secs.size()) + secdata;
             Iline = std::string("n0=") + (nan_first ? "1" : "0") + " E=" + grid2(post) + " C=" + grid2(post_ctl);
             bool later_nan = !allfinite && !nan_first;
             if (later_nan) Iline = "nanlater";
+            if (!finite2(pre_ctl)) Iline = "nonfinite-input";
             out.count("call:" + k + (call.rel ? ":rel" : ":abs"));
         }
         std::string id = out.add(k, payload_head + data);
@@ -746,7 +748,7 @@ static void run_shape(Out& out, const std::string& kind, const std::string& payl
         Polygon p = rectangle(Vec2{a[0], a[1]}, Vec2{a[2], a[3]}, 0);
         std::string I = "v";
         for (uint64_t i = 0; i < p.point_array.count; i++) I += " " + grid2(p.point_array[i]);
-        std::string d = "rect " + grid(a[0]) + " " + grid(a[1]) + " " + grid(a[2]) + " " + grid(a[3]);
+        std::string d = "rect " + w[0] + " " + w[1] + " " + w[2] + " " + w[3];
         std::string id = out.add(kind, head + " | " + d);
         out.I(id, I);
         p.clear();
@@ -754,7 +756,7 @@ static void run_shape(Out& out, const std::string& kind, const std::string& payl
         Polygon p = cross(Vec2{a[0], a[1]}, a[2], a[3], 0);
         std::string I = "v";
         for (uint64_t i = 0; i < p.point_array.count; i++) I += " " + grid2(p.point_array[i]);
-        std::string d = "cross " + grid(a[0]) + " " + grid(a[1]) + " " + grid(a[2]) + " " + grid(a[3]);
+        std::string d = "cross " + w[0] + " " + w[1] + " " + w[2] + " " + w[3];
         std::string id = out.add(kind, head + " | " + d);
         out.I(id, I);
         p.clear();
